@@ -9,7 +9,7 @@ ID = 'C12'
 ENGINE = 'detsched'
 TECHNIQUE = 'runtime monitoring under a deterministic cooperative scheduler with a virtual clock: happens-after checker (no dispatch and no timed posting after stop() returned), thread liveness, liveness of a second object and of the fabric, exact deadlock detection'
 RULE = ('an ActiveObject with 0-3 timed sources, 0-3 poster threads and a handler that may post, a SECOND active object and a plain queue '
-        'subscribed to the fabric; stop() is called at a random virtual instant (in part of the runs while the current step of the object is arming a further timed source, in part while an application thread arms one: such a source must be silent after stop() returned whenever its arming call had returned, or it had already posted, before stop() was called) (coinciding with a timer instant in half of the runs) from '
+        'subscribed to the fabric; stop() is called at a random virtual instant (in part of the runs while the current step of the object is arming a further timed source, in part while an application thread arms one (its arming call held at a random point by an injected virtual delay in most of these runs): such a source must be silent after stop() returned whenever its arming call had returned, or it had already posted, before stop() was called) (coinciding with a timer instant in half of the runs) from '
         'the harness thread or from inside one of the object\'s own handlers. After stop() returned from outside: the object\'s thread has '
         'ended, no dispatch-enter record and no posting by one of its timed sources carries a later step, a post to the second object is '
         'still dispatched and a fabric publication still reaches its subscriber; stop() inside a handler: no exception escapes, no further '
@@ -18,7 +18,7 @@ RULE = ('an ActiveObject with 0-3 timed sources, 0-3 poster threads and a handle
 CASES = {'quick': 1200, 'thorough': 80000}
 BUDGET = {'quick': 150, 'thorough': 300}
 REQUIRE = {'runs': 500, 'stop_from_outside': 200, 'stop_from_handler': 150, 'runs_with_timed_sources': 300, 'stop_coincides_with_posting': 100, 'step_arms_timed_source_during_stop': 100,
-           'application_thread_arms_source_around_stop': 100, 'application_armed_source_started_before_stop': 40}
+           'application_thread_arms_source_around_stop': 100, 'application_armed_source_started_before_stop': 40, 'arming_call_held_by_injected_delay': 60}
 ASSUME = ['instantaneous-computation time model']
 ANNOUNCE_CASES = True
 
@@ -87,9 +87,15 @@ def run_case(ctx, n):
         ts = run.t0[tsrc['i']] + rng.randint(1, 3) * tsrc['period']
       else:
         ts = s.clock + rng.choice([0.0, 0.004, 0.0333, 0.21])
+      if ext_arm and rng.random() < 0.6:
+        # fault injection: the arming thread is held (virtual sleep) at a random yield point inside the timed-post call, so
+        # that stop() and the new source's timer thread run while the arming call is half done
+        s.inject = {'match': lambda me, loc: me.role == 'ext_armer' and isinstance(loc, tuple) and loc[0] == '__post_event',
+                    'visit': rng.randint(1, 40), 'sleep': rng.choice([0.0008, 0.002, 0.02])}
+        ctx.count('arming_call_held_by_injected_delay')
       if ext_arm:
         def ext_armer():
-          ds.STime.sleep(max(0.0, ts - rng.choice([0.0, 0.0, 0.0005]) - ds.S.clock))
+          ds.STime.sleep(max(0.0, ts - rng.choice([0.0, 0.0005, 0.0005]) - ds.S.clock))
           ext_rec['call'] = ds.S.steps
           timersim.start_source(ao, run, extsrc)
           ext_rec['ret'] = ds.S.steps
